@@ -96,6 +96,45 @@ def expect_reject(fn, proto_exc=()):
 
 # ------------------------------------------------------------------ list-like containers
 
+def nested_clone_probe(kind, L):
+    """A SEQUENCE OF / SET OF whose members are records holding the model's integers: a deep clone shares nothing
+    with the original, at any depth, in either direction."""
+    rec = univ.Sequence(componentType=namedtype.NamedTypes(
+        namedtype.NamedType('x', univ.Integer()),
+        namedtype.OptionalNamedType('l', univ.SequenceOf(componentType=univ.Integer()))))
+    cls = univ.SequenceOf if kind == 'seqof' else univ.SetOf
+    o = cls(componentType=rec)
+    o.clear()
+    for v in L:
+        m = rec.clone()
+        m['x'] = v
+        m['l'].append(v + 1)
+        o.append(m)
+
+    def snap(obj):
+        return [(int(m['x']), [int(y) for y in m['l']]) for m in obj]
+    want = [(v, [v + 1]) for v in L]
+    c = o.clone(cloneValueFlag=True)
+    if snap(c) != want or snap(o) != want:
+        raise Mismatch('deep-clone-of-nested-list-differs', '%r vs %r' % (snap(c), want))
+    for a, b in ((c, o), (o, c)):
+        for m in a:
+            m['x'] = 77
+            m['l'].append(5)
+            m['l'][0] = 9
+        if snap(b) != want:
+            raise Mismatch('deep-clone-shares-members-with-the-original', '%r vs %r' % (snap(b), want))
+        for i, v in enumerate(L):       # put the mutated side back
+            a[i]['x'] = v
+            a[i]['l'].clear()
+            a[i]['l'].append(v + 1)
+    if L:
+        ids_o = set(id(m) for m in o) | set(id(m['l']) for m in o)
+        ids_c = set(id(m) for m in c) | set(id(m['l']) for m in c)
+        if ids_o & ids_c:
+            raise Mismatch('deep-clone-shares-members-with-the-original', 'object identity')
+
+
 class ListCase(object):
     def __init__(self, kind, typed):
         self.kind, self.typed = kind, typed
@@ -238,6 +277,9 @@ class ListCase(object):
                     raise Mismatch('clone-without-values-is-not-a-schema', repr(c)[:100])
                 return ('clone-schema',)
             # the copy must be independent: mutate it, the original must not move
+            if L is not None and rng.random() < 0.3:
+                nested_clone_probe(self.kind, L)
+                return ('clone-deep-of-nested-list',)
             if L is not None and rng.random() < 0.5:
                 c.append(self.elem(1))
                 if n:
